@@ -132,3 +132,5 @@ func TestTracerSmoke(t *testing.T) {
 		t.Fatalf("expected %d ops, traced %d, results %d", len(ops), len(res.Ops), len(out))
 	}
 }
+
+func syscallMkdir(p string) error { return os.Mkdir(p, 0o700) }
